@@ -37,7 +37,7 @@ theorem projectValue_le_one : ∀ (pf from_ pt to_ : List Nat),
   | n :: ns, k :: ks, m :: ms, t :: ts, h => by
     have h0 := h 0 (by simp)
     simp only [List.getD_cons_zero] at h0
-    have ih := projectValue_le_one (β := β) ns ks ms ts (fun j hj => by
+    have ih := projectValue_le_one ns ks ms ts (fun j hj => by
       simpa using h (j + 1) (by simpa using hj))
     rw [projectValue_cons]
     exact mul_le_one₀ (hyper_le_one n k m t h0.1 h0.2) (projectValue_nonneg ns ks ms ts) ih
